@@ -155,6 +155,19 @@ func init() {
 			}
 		}
 	}}
+	/* only the simultaneous askers of one URL (document fetches alone, and mixed with webfinger
+	   lookups of the same URL) out of the fault generator */
+	groups["C03same"] = group{gen: func(r *rand.Rand, n int, emit func(Op)) {
+		count := 0
+		for count < n {
+			groups["C05"].gen(r, 40, func(op Op) {
+				if op["op"] == "fetchsame" && count < n {
+					emit(op)
+					count++
+				}
+			})
+		}
+	}}
 	groups["C13par"] = pack("C13", 12)
 	groups["renderpar"] = pack("render", 6)
 }
